@@ -1,6 +1,8 @@
 """C06 - imputers replace exactly the requested features with genuine background values (DESIGN 3, C06)."""
 import copy
+import random
 
+import numpy as np
 from hypothesis import strategies as st
 
 from ..core import Result
@@ -20,6 +22,7 @@ RULE = ("1..4 ROUNDS of [store 0..12 more rows, then impute] with the SAME imput
         "input equals x and there are n_samples predictions; deep snapshots of x, the subset and storage.get_data() are unchanged - also when a model evaluation inside impute raises (every "
         "fifth round injects such a fault); observations differ in key order and some carry an optional key: the model input must have "
         "exactly the instance's keys in the instance's order; defaults are also given as defaultdict / dict with __missing__. "
+        "A quarter of the cases store SPARSE observations (defaultdicts that leave features out: reading one must not write into it). WRAPPED: the model function is the library's own SklearnWrapper (built with the feature names) and n_samples is 1..700 (255/256/257, 300, 513, 700): exactly n_samples predictions, inputs as above. "
         "Non-trivial: proper non-empty subset, >=2 distinct stored rows, n_samples>=2, x differs from every stored row on the subset; "
         "distinct by case digest.")
 ASSUMPTIONS = ["one-shot iterators are not generated as subsets (no caller passes one; re-iteration is inherent in n_samples > 1)",
@@ -73,8 +76,16 @@ def run_case(case):
         for ri, rnd in enumerate(rounds):
             for r in rnd['rows']:
                 n_rows += 1
-                storage.update(_obs(names, r, mode, n_rows % 4 if case.get('vary_keys') else 0,
-                                    n_rows if case.get('vary_keys') and n_rows % 3 == 0 else None), ['y', n_rows])
+                obs = _obs(names, r, mode, n_rows % 4 if case.get('vary_keys') else 0,
+                           n_rows if case.get('vary_keys') and n_rows % 3 == 0 else None)
+                if case.get('sparse_rows'):
+                    # the sparse-feature idiom: observations are defaultdicts and leave out features whose value is the default
+                    import collections
+                    zero = num(0, mode)
+                    obs = collections.defaultdict(lambda zero=zero: zero, obs)
+                    if n_rows % 3 == 1 and d >= 2:
+                        del obs[names[(n_rows // 3) % d]]
+                storage.update(obs, ['y', n_rows])
             if len(storage) == 0:
                 continue
             res = one_impute(imp, model, storage, names, mode, tag, defaults, rnd, ri)
@@ -108,6 +119,16 @@ def _obs(names, values, mode, perm=0, opt=None):
     if opt is not None:
         x['opt0'] = num(opt, mode)      # an optional key that only some observations carry
     return x
+
+
+def _rv(r, f):
+    """The value feature f has in the stored observation r - WITHOUT touching r (reading a defaultdict inserts the key)."""
+    if f in r:
+        return r[f]
+    fac = getattr(r, 'default_factory', None)
+    if fac is None:
+        raise KeyError(f)
+    return fac()
 
 
 def one_impute(imp, model, storage, names, mode, tag, defaults, rnd, ri):
@@ -195,14 +216,14 @@ def one_impute(imp, model, storage, names, mode, tag, defaults, rnd, ri):
                 if inp[f] != defaults[f]:
                     return Result(False, key='C06:default:not-default', detail=where + f'feature {f!r} is {inp[f]!r}, configured default {defaults[f]!r}')
         elif tag == 'joint':
-            if sub_names and not any(all(eq(inp[f], r[f]) for f in sub_names) for r in stored_raw):
+            if sub_names and not any(all(eq(inp[f], _rv(r, f)) for f in sub_names) for r in stored_raw):
                 return Result(False, key='C06:joint:not-one-row', detail=where + f'imputed values { {f: inp[f] for f in sub_names}!r} do not come from ONE currently stored row of {stored!r}')
         else:
             for f in sub_names:
-                if not any(eq(inp[f], r[f]) for r in stored_raw):
+                if not any(eq(inp[f], _rv(r, f)) for r in stored_raw):
                     return Result(False, key='C06:product:not-a-stored-value', detail=where + f'feature {f!r} = {inp[f]!r} is no value of that feature in a currently stored observation {stored!r}')
     distinct_rows = len({tuple(sorted(map(repr, r.items()))) for r in stored})
-    differs = all(any(x[f] != r[f] for f in sub_names) for r in stored) if sub_names else False
+    differs = all(any(x[f] != _rv(r, f) for f in sub_names) for r in stored_raw) if sub_names else False
     nt = 0 < len(sub_names) < d and distinct_rows >= 2 and n >= 2 and differs
     labels = [rnd['subset_type'], 'empty' if not sub_names else ('full' if len(sub_names) == d else 'proper')]
     return nt, labels
@@ -253,16 +274,85 @@ def cases(draw):
         'defaults': [draw(st.integers(-3, 3)) for _ in range(d)], 'script': draw(gen.script),
         'defaults_container': draw(st.sampled_from(['dict', 'dict', 'defaultdict', 'missing'])),
         'vary_keys': draw(st.booleans()),      # stored observations differ in key order and some carry an optional key
+        'sparse_rows': style != 'typed' and draw(st.integers(0, 3)) == 0,   # defaultdict observations that leave features out
     }
 
 
-SUBS = {'impute': run_case}
+def run_wrapped(case):
+    """The model function is one of the library's own array wrappers (SklearnWrapper around a predict function, built with the
+    feature names) and n_samples goes up to several hundred: exactly n_samples predictions, every model input equal to x outside the
+    subset and taken from stored rows (ONE row under 'joint') inside it."""
+    from ixai.imputer import MarginalImputer
+    from ixai.storage import BatchStorage, IntervalStorage
+    from ixai.utils.wrappers import SklearnWrapper
+    names = list(case['names'])
+    d = len(names)
+    seen_rows = []
+
+    def predict(arr):
+        arr = np.asarray(arr, dtype=float)
+        arr = arr.reshape(1, -1) if arr.ndim == 1 else arr
+        seen_rows.extend([float(v) for v in row] for row in arr)
+        return arr.sum(axis=1)
+    model = SklearnWrapper(predict, feature_names=names)
+    storage = BatchStorage(store_targets=False) if case['k'] is None else IntervalStorage(size=case['k'], store_targets=False)
+    rows = [{n: float(10 * (j + 1) + f) for f, n in enumerate(names)} for j in range(case['n_rows'])]
+    for r in rows:
+        storage.update(dict(r))
+    x = {n: float(-(f + 1)) for f, n in enumerate(names)}
+    sub = [names[i] for i in case['subset']]
+    n = case['n_samples']
+    random.seed(case['seeds'][0])
+    np.random.seed(case['seeds'][1])
+    imp = MarginalImputer(model, case['strategy'], storage)
+    try:
+        preds = imp.impute(feature_subset=list(sub), x_i=x, n_samples=n)
+    except Exception as e:
+        return Result(False, key=f'C06:wrapped:exception:{type(e).__name__}', detail=f'impute raised {e!r} (n_samples={n})')
+    if not isinstance(preds, list) or len(preds) != n:
+        return Result(False, key=f"C06:{case['strategy']}:prediction-count",
+                      detail=f'{len(preds) if hasattr(preds, "__len__") else preds!r} predictions for n_samples={n} (model: SklearnWrapper)')
+    stored = [[r[nm] for nm in names] for r in storage.get_data()[0]]
+    if len(seen_rows) > n or not seen_rows:
+        return Result(False, key='C06:wrapped:model-calls', detail=f'{len(seen_rows)} rows evaluated for n_samples={n}')
+    outs = sorted(float(sum(r)) for r in seen_rows)
+    for p in preds:
+        if not (isinstance(p, dict) and set(p) == {'output'} and any(abs(float(p['output']) - o) <= 1e-9 for o in outs)):
+            return Result(False, key='C06:wrapped:prediction-mismatch', detail=f'prediction {p!r} is not the output for one of the evaluated rows')
+    for row in seen_rows:
+        for i, nm in enumerate(names):
+            if nm not in sub and row[i] != x[nm]:
+                return Result(False, key=f"C06:{case['strategy']}:outside-subset-changed", detail=f'feature {nm!r}: {row[i]!r} instead of {x[nm]!r}')
+        idx = [i for i, nm in enumerate(names) if nm in sub]
+        if case['strategy'] == 'joint':
+            if idx and not any(all(row[i] == s_[i] for i in idx) for s_ in stored):
+                return Result(False, key='C06:joint:not-one-row', detail=f'evaluated row {row!r} does not take its subset values from ONE stored row')
+        else:
+            for i in idx:
+                if not any(row[i] == s_[i] for s_ in stored):
+                    return Result(False, key='C06:product:not-a-stored-value', detail=f'evaluated row {row!r}: value {row[i]!r} is no stored value of that feature')
+    return Result(True, nontrivial=n > 256 and 0 < len(sub) < d, labels=['wrapped_model', case['strategy'], 'n>256' if n > 256 else 'n<=256'])
+
+
+@st.composite
+def wrapped_cases(draw):
+    d = draw(st.integers(2, 4))
+    names = draw(cfgs.names_st(d))
+    size = draw(st.integers(1, d - 1))
+    return {'names': names, 'subset': draw(st.permutations(list(range(d))))[:size], 'n_rows': draw(st.integers(2, 6)),
+            'k': draw(st.sampled_from([None, 3])), 'strategy': draw(st.sampled_from(['joint', 'product'])),
+            'n_samples': draw(st.sampled_from([257, 300, 513, 700, 256, 255, 2, 1])), 'seeds': [draw(gen.seed32) % 2 ** 31, draw(gen.seed32) % 2 ** 31]}
+
+
+SUBS = {'impute': run_case, 'wrapped': run_wrapped}
 
 
 def replay(sub, case):
-    return run_case(case)
+    return SUBS.get(sub, run_case)(case)
 
 
 def run(ctx):
     ctx.rule, ctx.assumptions = RULE, ASSUMPTIONS
-    ctx.search('impute', cases(), run_case, ctx.n(3000, 320000))
+    if not ctx.search('impute', cases(), run_case, ctx.n(3000, 320000)):
+        return
+    ctx.search('wrapped', wrapped_cases(), run_wrapped, ctx.n(60, 4000))
